@@ -178,6 +178,48 @@ namespace sim
                s = seq_sem( an, { a, b } );
                s.null = true;
                break;
+            // variadic forms: the unary semantics over seq< kids... >
+            case OP_STAR2:
+            case OP_OPT2:
+            case OP_AT2:
+            case OP_NOT_AT2:
+            case OP_REP_MAX2:
+            case OP_REP_OPT2:
+               s = seq_sem( an, { a, b } );
+               s.null = true;
+               break;
+            case OP_PLUS2:
+            case OP_MUST2:
+            case OP_REP2_2:
+            case OP_REP_MIN_MAX2:
+            case OP_REP_MIN2:
+            case OP_STATE2:
+            case OP_ENABLE2:
+            case OP_DISABLE2:
+            case OP_TC_ANY_RF2:
+            case OP_TC_ANY_RN2:
+            case OP_TC_STD_RN2:
+               return seq_sem( an, { a, b } );
+            case OP_UNTIL3: {
+               // until< C, R1, R2 >: C | ( R1 R2 ) ... C
+               const Sem body = seq_sem( an, { b, c } );
+               s.null = na;
+               s.left = bit( a ) | body.left;
+               break;
+            }
+            case OP_IF_MUST3:
+               return seq_sem( an, { a, b, c } );
+            case OP_OPT_MUST3:
+            case OP_STAR_MUST3:
+            case OP_STRICT3:
+            case OP_STAR_PARTIAL3:
+               s = seq_sem( an, { a, b, c } );
+               s.null = true;
+               break;
+            case OP_PARTIAL3:
+               s = seq_sem( an, { a, b, c } );
+               s.null = true;
+               break;
             case OP_RAW:
                s.null = false;
                s.left = 0;
@@ -262,6 +304,18 @@ namespace sim
                break;
             case OP_PAD2:
                ok = !nb && !nc;
+               break;
+            case OP_STAR2:
+            case OP_PLUS2:
+            case OP_REP_MIN2:
+               ok = !( na && nb );
+               break;
+            case OP_UNTIL3:
+               ok = !( nb && nc );
+               break;
+            case OP_STAR_MUST3:
+            case OP_STAR_PARTIAL3:
+               ok = !( na && nb && nc );
                break;
             default:
                break;
@@ -389,12 +443,12 @@ namespace sim
    // ------------------------------------------------------------ generation
    namespace
    {
-      const std::uint8_t grp_consume[] = { OP_SEQ2, OP_SEQ3, OP_SOR2, OP_SOR3, OP_UNTIL1, OP_UNTIL2, OP_REP2, OP_REP_MIN_MAX, OP_REP_MIN, OP_IF_THEN_ELSE, OP_STRICT, OP_STAR_STRICT, OP_REMATCH, OP_REMATCH2, OP_MINUS, OP_IF_APPLY, OP_RAW, OP_TC_RF, OP_TC_ANY_RF, OP_LIST, OP_PAD, OP_AT, OP_NOT_AT };
-      const std::uint8_t grp_exc[] = { OP_MUST_MSG, OP_TC_RN_MSG, OP_TC_ANY_RN_MSG, OP_TC_STD_RN_MSG, OP_TC_TYPE_RN_MSG, OP_D_TC_CS, OP_D_MUST_CS, OP_D_SEQ_CS, OP_TC_RF2, OP_TC_STD_RF2, OP_TC_TYPE_RF2, OP_TC_RN2, OP_TC_TYPE_RN2, OP_MUST, OP_IF_MUST, OP_IF_MUST_ELSE, OP_OPT_MUST, OP_STAR_MUST, OP_LIST_MUST, OP_TC_RF, OP_TC_ANY_RF, OP_TC_STD_RF, OP_TC_TYPE_RF, OP_TC_RN, OP_TC_ANY_RN, OP_TC_STD_RN, OP_TC_TYPE_RN, OP_SEQ2, OP_SOR2, OP_STAR, OP_OPT, OP_AT, OP_W_CB2, OP_IF_APPLY };
-      const std::uint8_t grp_state[] = { OP_D_SEQ_CS, OP_D_SOR_CSS, OP_D_STAR_EA, OP_D_OPT_DA, OP_D_MUST_CS, OP_D_ENABLE_DA, OP_D_DISABLE_EA, OP_D_STATE_CSS, OP_D_TC_CS, OP_D_AT_EA, OP_D_ITE_DA, OP_D_PLUS_CS, OP_D_UNTIL_EA, OP_STATE, OP_W_CS, OP_W_CSS, OP_W_EA, OP_W_DA, OP_ENABLE, OP_DISABLE, OP_AT, OP_NOT_AT, OP_MINI, OP_SEQ2, OP_SOR2, OP_STAR, OP_OPT, OP_TC_ANY_RF, OP_MUST };
+      const std::uint8_t grp_consume[] = { OP_STAR2, OP_PLUS2, OP_OPT2, OP_AT2, OP_NOT_AT2, OP_UNTIL3, OP_REP2_2, OP_REP_MIN_MAX2, OP_REP_MAX2, OP_REP_MIN2, OP_REP_OPT2, OP_STRICT3, OP_PARTIAL3, OP_STAR_PARTIAL3, OP_SEQ2, OP_SEQ3, OP_SOR2, OP_SOR3, OP_UNTIL1, OP_UNTIL2, OP_REP2, OP_REP_MIN_MAX, OP_REP_MIN, OP_IF_THEN_ELSE, OP_STRICT, OP_STAR_STRICT, OP_REMATCH, OP_REMATCH2, OP_MINUS, OP_IF_APPLY, OP_RAW, OP_TC_RF, OP_TC_ANY_RF, OP_LIST, OP_PAD, OP_AT, OP_NOT_AT };
+      const std::uint8_t grp_exc[] = { OP_MUST2, OP_IF_MUST3, OP_OPT_MUST3, OP_STAR_MUST3, OP_TC_ANY_RF2, OP_TC_ANY_RN2, OP_TC_STD_RN2, OP_MUST_MSG, OP_TC_RN_MSG, OP_TC_ANY_RN_MSG, OP_TC_STD_RN_MSG, OP_TC_TYPE_RN_MSG, OP_D_TC_CS, OP_D_MUST_CS, OP_D_SEQ_CS, OP_TC_RF2, OP_TC_STD_RF2, OP_TC_TYPE_RF2, OP_TC_RN2, OP_TC_TYPE_RN2, OP_MUST, OP_IF_MUST, OP_IF_MUST_ELSE, OP_OPT_MUST, OP_STAR_MUST, OP_LIST_MUST, OP_TC_RF, OP_TC_ANY_RF, OP_TC_STD_RF, OP_TC_TYPE_RF, OP_TC_RN, OP_TC_ANY_RN, OP_TC_STD_RN, OP_TC_TYPE_RN, OP_SEQ2, OP_SOR2, OP_STAR, OP_OPT, OP_AT, OP_W_CB2, OP_IF_APPLY };
+      const std::uint8_t grp_state[] = { OP_STATE2, OP_ENABLE2, OP_DISABLE2, OP_AT2, OP_D_SEQ_CS, OP_D_SOR_CSS, OP_D_STAR_EA, OP_D_OPT_DA, OP_D_MUST_CS, OP_D_ENABLE_DA, OP_D_DISABLE_EA, OP_D_STATE_CSS, OP_D_TC_CS, OP_D_AT_EA, OP_D_ITE_DA, OP_D_PLUS_CS, OP_D_UNTIL_EA, OP_STATE, OP_W_CS, OP_W_CSS, OP_W_EA, OP_W_DA, OP_ENABLE, OP_DISABLE, OP_AT, OP_NOT_AT, OP_MINI, OP_SEQ2, OP_SOR2, OP_STAR, OP_OPT, OP_TC_ANY_RF, OP_MUST };
       const std::uint8_t grp_limits[] = { OP_W_LB1, OP_W_LB3, OP_W_LD1, OP_W_LD2, OP_W_CB2, OP_SEQ2, OP_SEQ3, OP_SOR2, OP_STAR, OP_OPT, OP_AT, OP_NOT_AT, OP_TC_RF, OP_TC_ANY_RF, OP_PLUS, OP_UNTIL1 };
       const std::uint8_t grp_stream[] = { OP_SEQ2, OP_SEQ3, OP_SOR2, OP_STAR, OP_PLUS, OP_UNTIL1, OP_UNTIL2, OP_LIST, OP_PAD, OP_RAW, OP_REMATCH, OP_MINUS, OP_AT, OP_NOT_AT, OP_REP_MIN_MAX, OP_IF_THEN_ELSE };
-      const std::uint8_t grp_tree[] = { OP_T_SOR_BT, OP_T_SOR_TC, OP_SEQ2, OP_SOR2, OP_STAR, OP_OPT, OP_PLUS, OP_AT, OP_NOT_AT, OP_TC_ANY_RF, OP_TC_RF, OP_MUST, OP_LIST, OP_MINI, OP_IF_THEN_ELSE, OP_UNTIL2 };
+      const std::uint8_t grp_tree[] = { OP_STAR2, OP_OPT2, OP_PLUS2, OP_MUST2, OP_TC_ANY_RF2, OP_UNTIL3, OP_T_SOR_BT, OP_T_SOR_TC, OP_SEQ2, OP_SOR2, OP_STAR, OP_OPT, OP_PLUS, OP_AT, OP_NOT_AT, OP_TC_ANY_RF, OP_TC_RF, OP_MUST, OP_LIST, OP_MINI, OP_IF_THEN_ELSE, OP_UNTIL2 };
 
       const std::uint8_t atoms_consume[] = { ATOM_PRED_OR_UTF8, ATOM_MASK16_ONE, ATOM_MASK32_STRING, ATOM_MASK64_NOT_ONE, ATOM_UINT16_LE_RANGES, ATOM_REP_STRING, ATOM_SEPARATED_SEQ, ATOM_IF_THEN_CHAIN, ATOM_SHEBANG, ATOM_ELLIPSIS, ATOM_UTF8_STRING, ATOM_UTF16_BE_STRING, ATOM_UTF32_LE_NOT_ONE, ATOM_JSON_VALUE, ATOM_URI, ATOM_URI_REFERENCE, ATOM_IPV6, ATOM_REL_JSON_POINTER, ATOM_IRI, ATOM_ABNF_CRLF_WSP, ATOM_HTTP_FIELD, ATOM_HTTP_REQUEST_LINE, ATOM_UTF16_BE_ANY, ATOM_UTF16_LE_RANGE, ATOM_UTF32_BE_ANY, ATOM_UINT64_ANY, ATOM_ISTR_ABC, ATOM_UNSIGNED, ATOM_SIGNED, ATOM_MAXIMUM, ATOM_RAW0, ATOM_STR_ABC, ATOM_KEYWORD_AB, ATOM_REP_ONE, ATOM_UTF8_ANY, ATOM_UINT16_ANY, ATOM_UINT32_ONE, ATOM_BYTES3, ATOM_LIST_DIGITS, ATOM_NAMED_DIGITS, ATOM_THREE_A, ATOM_IDENTIFIER, ATOM_EOL, ATOM_STR_CRLF, ATOM_DEEP9 };
       const std::uint8_t atoms_exc[] = { ATOM_JSON_VALUE, ATOM_HTTP_REQUEST_LINE, ATOM_DEEP10_BT, ATOM_DEEP9, ATOM_RAISE, ATOM_RAISE_MSG, ATOM_NAMED_AB, ATOM_NAMED_C, ATOM_NAMED_DIGITS, ATOM_APPLY, ATOM_ONE_A, ATOM_ANY, ATOM_STR_AB, ATOM_DEEP7 };
@@ -829,6 +883,99 @@ namespace sim
                   }
                   if( r.chance( 2, 3 ) ) {
                      out += r.chance( 1, 2 ) ? "x" : ( r.chance( 1, 2 ) ? "y" : "z" );
+                  }
+                  break;
+               case OP_STAR2:
+               case OP_REP_MAX2:
+               case OP_REP_OPT2:
+                  for( unsigned i = reps( 0, 2 ); i > 0; --i ) {
+                     node( a, d );
+                     node( b, d );
+                  }
+                  break;
+               case OP_PLUS2:
+               case OP_REP_MIN2:
+               case OP_REP_MIN_MAX2:
+                  for( unsigned i = reps( 1, 2 ); i > 0; --i ) {
+                     node( a, d );
+                     node( b, d );
+                  }
+                  break;
+               case OP_REP2_2:
+                  node( a, d );
+                  node( b, d );
+                  node( a, d );
+                  node( b, d );
+                  break;
+               case OP_OPT2:
+                  if( r.chance( 2, 3 ) ) {
+                     node( a, d );
+                     node( b, d );
+                  }
+                  break;
+               case OP_AT2:
+                  if( r.chance( 1, 3 ) ) {
+                     node( a, d );
+                     node( b, d );
+                  }
+                  break;
+               case OP_NOT_AT2:
+                  if( r.chance( 1, 3 ) ) {
+                     node( a, d );
+                  }
+                  break;
+               case OP_MUST2:
+               case OP_STATE2:
+               case OP_ENABLE2:
+               case OP_DISABLE2:
+               case OP_TC_ANY_RF2:
+               case OP_TC_ANY_RN2:
+               case OP_TC_STD_RN2:
+                  node( a, d );
+                  if( r.chance( 5, 6 ) ) {
+                     node( b, d );
+                  }
+                  break;
+               case OP_UNTIL3:
+                  for( unsigned i = reps( 0, 2 ); i > 0; --i ) {
+                     node( b, d );
+                     node( c, d );
+                  }
+                  node( a, d );
+                  break;
+               case OP_IF_MUST3:
+                  node( a, d );
+                  node( b, d );
+                  if( r.chance( 4, 5 ) ) {
+                     node( c, d );
+                  }
+                  break;
+               case OP_OPT_MUST3:
+               case OP_STRICT3:
+                  if( r.chance( 2, 3 ) ) {
+                     node( a, d );
+                     node( b, d );
+                     node( c, d );
+                  }
+                  break;
+               case OP_STAR_MUST3:
+               case OP_STAR_PARTIAL3:
+                  for( unsigned i = reps( 0, 2 ); i > 0; --i ) {
+                     node( a, d );
+                     node( b, d );
+                     node( c, d );
+                  }
+                  if( row.op == OP_STAR_PARTIAL3 && r.chance( 1, 3 ) ) {
+                     node( a, d );
+                  }
+                  break;
+               case OP_PARTIAL3:
+                  node( a, d );
+                  if( r.chance( 2, 3 ) ) {
+                     node( b, d );
+                     if( r.chance( 1, 2 ) ) {
+                        node( c, d );
+                     }
                   }
                   break;
                case OP_RAW: {
